@@ -79,11 +79,21 @@ pub fn run_case(ctx: &Ctx, idx: u64) -> Vec<CaseOut> {
         ])
     };
     let requested = if idx < STEER { 2 } else { *r.pick(&WORKER_REQUESTS) };
-    let unit = 4096usize;
-    let units = if tiny { 2 } else { 1 + r.usize_below(10) };
+    // saturating load for the writers: big incompressible units arrive much faster than they can be
+    // compressed, so every started worker is busy and units queue up - the moment at which the pool
+    // decides whether it may grow
+    let heavy = !tiny && !reader && idx >= STEER && r.chance(1, 4);
+    let unit = if heavy { 150_000usize } else { 4096usize };
+    let units = if tiny {
+        2
+    } else if heavy {
+        4 + r.usize_below(6)
+    } else {
+        1 + r.usize_below(10)
+    };
     let len = (units - 1) * unit + 1 + r.usize_below(unit);
     mt::no_sched();
-    let data = mt::stamped_data(&mut r, len, unit, true);
+    let data = mt::stamped_data(&mut r, len, unit, !heavy);
     // stream for readers
     let stream: Vec<u8> = if reader {
         if tiny && !lzip {
@@ -188,7 +198,7 @@ pub fn run_case(ctx: &Ctx, idx: u64) -> Vec<CaseOut> {
                         DropPoint::IdleThenUnitThenDrop => {
                             let _ = w.write_all(&d2);
                             let _ = w.flush();
-                            let one_unit = vec![0x55u8; 4096];
+                            let one_unit = vec![0x55u8; unit];
                             let _ = w.write_all(&one_unit);
                             drop(w)
                         }
@@ -224,8 +234,8 @@ pub fn run_case(ctx: &Ctx, idx: u64) -> Vec<CaseOut> {
             }
         }
     });
-    let cell = format!("{tname}|{point:?}|req{}", if requested > 256 { ">256".to_string() } else { requested.to_string() });
-    let desc = format!("{tname} requested_workers={requested} units={units} drop={point:?} io={io_amount} sched=[{sched}]");
+    let cell = format!("{tname}|{point:?}|req{}{}", if requested > 256 { ">256".to_string() } else { requested.to_string() }, if heavy { "|saturating" } else { "" });
+    let desc = format!("{tname} requested_workers={requested} units={units} unit_size={unit} drop={point:?} io={io_amount} sched=[{sched}]");
     let mut out = Vec::new();
     match g {
         Guarded::Stuck(w) => {
